@@ -2,7 +2,7 @@
    must be those of the model's fix applied to the coefficients it reported
    before; no fixed variable may still be mentioned. *)
 From Coq Require Import List ZArith QArith Qcanon Bool Arith.
-From Dimod Require Import Base.Util Model.Poly Model.HPoly Model.FixPy.
+From Dimod Require Import Base.Util Model.Poly Model.HPoly Model.FixPy Model.HPolyPy.
 From Dimod Require Model.Expr Model.FixCopy.
 Import ListNotations.
 
@@ -31,7 +31,9 @@ Definition hmentions_any (fs : list (label * Qc)) (p : hpoly) : bool :=
   existsb (fun f => existsb (fun t => existsb (Nat.eqb (fst f)) (fst t)) p) fs.
 
 Definition hcheck (c : hcase) : bool :=
-  hpoly_eqb (hfix (h_fixes c) (h_before c)) (h_after c) && negb (hmentions_any (h_fixes c) (h_after c)).
+  hpoly_eqb (hfix (h_fixes c) (h_before c)) (h_after c) && negb (hmentions_any (h_fixes c) (h_after c))
+  (* the python loop of higherordercomposites.fix_variables (set difference, v *= value, final `()` item) *)
+  && hdict_items_eqb (fix_variables_py (h_fixes c) (h_before c)) (h_after c).
 
 (* ---------- CQM, index level: the two code paths on the RAW expression state ----------
    before / after are the raw states (_iindices, _ilinear, _iquadratic, offset of the objective and of every
